@@ -18,6 +18,7 @@ import (
 	"strconv"
 	"strings"
 	"sync"
+	"sync/atomic"
 	"time"
 
 	"github.com/cespare/xxhash"
@@ -40,7 +41,8 @@ func (p *prop) Rule() string {
 	return "histories over two stores (0 primary, 1 read-only replica): translate batches with repeats over a small per-case key pool " +
 		"(ASCII, empty, Unicode, NUL, 127/128/5000/16384-byte keys, clusters of keys sharing a robin-hood home slot incl. the wrap-around slots 255/0), " +
 		"batches of > 230 keys to force table growth, reverse lookups, restarts, replication sessions cut at every entry boundary and mid-entry with " +
-		"read sizes 1..100000, concurrent callers with overlapping batches, and `http` lines where an in-process server translates column keys and a fresh store " +
+		"read sizes 1..100000, concurrent callers with overlapping batches, `race` lines (statistical: 60 rounds of 2-4 callers released at the same instant " +
+		"on a namespace nobody touched before - fresh index, fresh index+field, fresh field of an existing index - each round checked for a bijection onto 1..n), and `http` lines where an in-process server translates column keys and a fresh store " +
 		"replicates its log over the real GET /internal/translate/data through pilosa/http's translate store; a case is non-trivial when a key is translated at least twice in one namespace " +
 		"(or a batch repeats a key) and the history contains a restart, a replication session, a growth batch or concurrent callers"
 }
@@ -509,6 +511,8 @@ func (p *prop) execLine(l string) string {
 		}
 		vh.Count("concurrent-lines")
 		return "seq=" + seqOfDump(pilosa.VerifC24IndexDump(p.st[0], ns.index, ns.field, ns.row)) + " ok"
+	case ws[0] == "race" && len(ws) == 4:
+		return p.execRace(ws[1], ws[2], ws[3])
 	case ws[0] == "http" && len(ws) == 2:
 		return p.execHTTP(ws[1])
 	case ws[0] == "chk" && len(ws) == 4:
@@ -555,6 +559,186 @@ func (p *prop) execLine(l string) string {
 		return fmt.Sprintf("ok distinct=%d", len(distinct))
 	}
 	return "bad-op"
+}
+
+// execRace: the statistical part of the tie. The two phases of a translation call cannot be gated
+// from outside, so the schedule "several callers finish their read-locked phase on a namespace that
+// does not exist yet before anyone takes the write lock" is provoked instead of forced: in each of
+// `rounds` rounds the batches are translated by goroutines released at the same instant, on a
+// namespace nobody has touched before (kind c: fresh index, columns; r: fresh index and field,
+// rows; f: a fresh field of an index that already has other namespaces, rows), in a store of its
+// own. After every round the mapping must be what C24_bijection says for ANY interleaving of the
+// phases: one id per key across all callers, one key per id, ids exactly 1..n, sequence = n,
+// lookups and reverse lookups agree, and a second translation changes nothing.
+func (p *prop) execRace(kind, roundsTok, batchTok string) string {
+	rounds, err := strconv.ParseUint(roundsTok, 10, 16)
+	if err != nil || rounds == 0 || (kind != "c" && kind != "r" && kind != "f") {
+		return "bad-op"
+	}
+	var batches [][]string
+	distinct := map[string]bool{}
+	for _, b := range strings.Split(batchTok, "|") {
+		keys, ok := parseKeys(b)
+		if !ok {
+			return "bad-op"
+		}
+		batches = append(batches, keys)
+		for _, k := range keys {
+			distinct[k] = true
+		}
+	}
+	if len(batches) < 1 || len(batches) > 16 {
+		return "bad-op"
+	}
+	// The store of a race line lives on tmpfs when there is one: an append costs an fsync, and on a
+	// disk that would limit a line to a handful of rounds.
+	base := p.dir
+	if fi, err := os.Stat("/dev/shm"); err == nil && fi.IsDir() {
+		base = "/dev/shm"
+	}
+	rdir, err := os.MkdirTemp(base, "verif-c24-race-")
+	if err != nil {
+		rdir, err = os.MkdirTemp(p.dir, "race-")
+	}
+	if err != nil {
+		return "err:tmpdir"
+	}
+	defer os.RemoveAll(rdir)
+	st := pilosa.NewTranslateFile(pilosa.OptTranslateFileMapSize(1 << 26))
+	st.Path = filepath.Join(rdir, "keys")
+	if err := st.Open(); err != nil {
+		return "err:open"
+	}
+	defer st.Close()
+	if kind == "f" {
+		// the index exists already: it has column keys and another field
+		if _, err := st.TranslateColumnsToUint64("zi", []string{"a", "b"}); err != nil {
+			return "err:other"
+		}
+		if _, err := st.TranslateRowsToUint64("zi", "base", []string{"a"}); err != nil {
+			return "err:other"
+		}
+	}
+	all := make([]string, 0, len(distinct))
+	for k := range distinct {
+		all = append(all, k)
+	}
+	sort.Strings(all)
+	n := uint64(len(distinct))
+	translateIn := func(ns nsKey, keys []string) ([]uint64, error) {
+		if ns.row {
+			return st.TranslateRowsToUint64(ns.index, ns.field, keys)
+		}
+		return st.TranslateColumnsToUint64(ns.index, keys)
+	}
+	// One goroutine per caller for the whole line. They spin (no channel, no Gosched: a woken or
+	// descheduled goroutine arrives far too late) until the round counter moves, then call the
+	// translation at once; the main goroutine spins until all are back.
+	var cur atomic.Value // nsKey of the round
+	var roundNo, doneN, stop int32
+	results := make([][]uint64, len(batches))
+	errs := make([]error, len(batches))
+	var wg sync.WaitGroup
+	for b := range batches {
+		wg.Add(1)
+		go func(b int) {
+			defer wg.Done()
+			seen := int32(0)
+			for {
+				for atomic.LoadInt32(&roundNo) == seen {
+					if atomic.LoadInt32(&stop) == 1 {
+						return
+					}
+				}
+				seen = atomic.LoadInt32(&roundNo)
+				func() {
+					defer func() {
+						if e := recover(); e != nil {
+							errs[b] = fmt.Errorf("panic")
+						}
+						atomic.AddInt32(&doneN, 1)
+					}()
+					results[b], errs[b] = translateIn(cur.Load().(nsKey), batches[b])
+				}()
+			}
+		}(b)
+	}
+	defer func() {
+		atomic.StoreInt32(&stop, 1)
+		wg.Wait()
+	}()
+	detected := func(what string) string {
+		vh.Count("race-detected")
+		return "bad:" + what
+	}
+	for round := uint64(0); round < rounds; round++ {
+		ns := nsKey{row: kind != "c", index: fmt.Sprintf("z%d", round), field: ""}
+		if kind == "r" {
+			ns.field = fmt.Sprintf("g%d", round)
+		}
+		if kind == "f" {
+			ns.index, ns.field = "zi", fmt.Sprintf("g%d", round)
+		}
+		cur.Store(ns)
+		atomic.StoreInt32(&doneN, 0)
+		atomic.StoreInt32(&roundNo, int32(round+1))
+		for atomic.LoadInt32(&doneN) < int32(len(batches)) {
+		}
+		byKey := map[string]uint64{}
+		byID := map[uint64]string{}
+		for b := range batches {
+			if errs[b] != nil || len(results[b]) != len(batches[b]) {
+				return "bad:call-failed"
+			}
+			for j, k := range batches[b] {
+				id := results[b][j]
+				if id == 0 {
+					return detected("zero-id")
+				}
+				if prev, ok := byKey[k]; ok && prev != id {
+					return detected("key-with-two-ids")
+				}
+				if prev, ok := byID[id]; ok && prev != k {
+					return detected("id-with-two-keys")
+				}
+				byKey[k], byID[id] = id, k
+			}
+		}
+		for id := uint64(1); id <= n; id++ {
+			if _, ok := byID[id]; !ok {
+				return detected("ids-not-1..n")
+			}
+		}
+		if seq := seqOfDump(pilosa.VerifC24IndexDump(st, ns.index, ns.field, ns.row)); seq != strconv.FormatUint(n, 10) {
+			return detected("sequence")
+		}
+		for _, k := range all {
+			id, ok := pilosa.VerifC24Lookup(st, ns.index, ns.field, ns.row, []byte(k))
+			if !ok || id != byKey[k] {
+				return detected("lookup-differs")
+			}
+			var back string
+			if ns.row {
+				back, _ = st.TranslateRowToString(ns.index, ns.field, id)
+			} else {
+				back, _ = st.TranslateColumnToString(ns.index, id)
+			}
+			if back != k {
+				return detected("reverse")
+			}
+		}
+		again, err := translateIn(ns, all)
+		if err != nil {
+			return "bad:call-failed"
+		}
+		for j, k := range all {
+			if again[j] != byKey[k] {
+				return detected("id-changed")
+			}
+		}
+	}
+	vh.Count("race-lines-" + kind)
+	return fmt.Sprintf("rounds=%d seq=%d ok", rounds, n)
 }
 
 // execHTTP: column keys are translated by an in-process server (index with keys, one Set per key),
@@ -698,6 +882,10 @@ func (p *prop) Gen(r *vh.Rng, tier string, n int) []vh.Case {
 	var cases []vh.Case
 	for k := 0; k < n; k++ {
 		cr := r.Fork()
+		if cr.Chance(1, 60) {
+			cases = append(cases, genRace(cr, tier))
+			continue
+		}
 		kind := cr.Intn(20)
 		switch {
 		case kind < 11:
@@ -827,6 +1015,31 @@ func genReplication(r *vh.Rng) vh.Case {
 	}
 	lines = append(lines, "repl all "+genSizes(r), "file 0", "file 1", "same", "dump 1 "+nss[0], "dump 0 "+nss[0])
 	return vh.Case{Lines: lines, Nontrivial: true}
+}
+
+// genRace: callers released together on fresh namespaces; batches form a ring (neighbours share a
+// key and differ in another) plus one key common to all, so that any two callers that overlap in
+// time both share and do not share keys.
+func genRace(r *vh.Rng, tier string) vh.Case {
+	nb := r.Range(2, 4)
+	base := r.Range(0, 50)
+	bs := make([]string, nb)
+	for i := range bs {
+		ks := []string{fmt.Sprintf("k%d", base+i), fmt.Sprintf("k%d", base+(i+1)%nb)}
+		if r.Chance(2, 3) {
+			ks = append(ks, "k999")
+		}
+		if r.Chance(1, 4) {
+			ks = append(ks, ks[0]) // repeat inside the batch
+		}
+		bs[i] = strings.Join(ks, ",")
+	}
+	rounds := 60
+	if tier == "thorough" {
+		rounds = 150
+	}
+	kind := []string{"c", "c", "r", "r", "f"}[r.Intn(5)]
+	return vh.Case{Lines: []string{fmt.Sprintf("race %s %d %s", kind, rounds, strings.Join(bs, "|"))}, Nontrivial: true}
 }
 
 func genConcurrent(r *vh.Rng) vh.Case {
